@@ -866,6 +866,7 @@ class Explorer:
                 if ret_block is None:
                     self._finish(st, "diverge:" + cname)
                     return
+                st.events.append(("ret", cname, rv, None))
                 if dest:
                     self.write_place(st, fr, dest, rv)
                 block = ret_block
